@@ -88,7 +88,8 @@ Reply(rid, res, S, lid) ==
 
 NewHolder(r, t) == [lid |-> r.lid, depth |-> 1, cnt |-> r.cnt, rc |-> r.rc, pflag |-> r.pflag,
                     dl |-> IF r.unl THEN MaxNow + 100 ELSE t + r.ex + 1, rid |-> r.id, start |-> t,
-                    aof |-> FALSE, next |-> IF r.unl THEN MaxNow + 100 ELSE t + r.ex + 1]
+                    aof |-> FALSE, next |-> IF r.unl THEN MaxNow + 100 ELSE t + r.ex + 1,
+                    oid |-> r.id]      \* identity of the Lock record (born with the request that created it)
 
 \* stable insertion used by the priority ring: descending priority, FIFO within a priority
 PrioInsert(W, w) ==
@@ -129,7 +130,7 @@ CheckLockedEqual(h, r, t) ==     \* lock.go:682 (second granularity; unlimited h
         diff == IF d > h.dl THEN d - h.dl ELSE h.dl - d
     IN diff <= 1 /\ r.cnt = h.cnt /\ r.rc = h.rc /\ r.pflag = h.pflag
 
-DoLock(S, r, t) ==
+DoLockG(WK(_, _, _), S, r, t) ==
     LET locked == Locked(S) IN
     IF r.conc /\ r.to = 0 /\ locked > r.cnt
     THEN [S |-> S, out |-> <<Reply(r.id, TIMEOUT, S, 0)>>]                       \* concurrent-check fast path (lrc 0)
@@ -147,7 +148,7 @@ DoLock(S, r, t) ==
               ELSE LET S1 == [S EXCEPT !.H[me] = [h EXCEPT !.cnt = r.cnt, !.rc = r.rc, !.pflag = r.pflag, !.rid = r.id,
                                                             !.dl = IF r.unl THEN MaxNow + 100 ELSE t + r.ex + 1, !.start = t,
                                                             !.next = IF r.unl THEN MaxNow + 100 ELSE t + r.ex + 1]]
-                   IN IF A13Fixed THEN WakePass(S1, t, <<Reply(r.id, LOCKED_ERROR, S1, lidEff)>>)
+                   IN IF A13Fixed THEN WK(S1, t, <<Reply(r.id, LOCKED_ERROR, S1, lidEff)>>)
                       ELSE [S |-> S1, out |-> <<Reply(r.id, LOCKED_ERROR, S1, lidEff)>>]
          ELSE IF h.depth < MaxDepth /\ h.depth <= r.rc /\ ~r.pflag
          THEN IF r.ex = 0
@@ -155,7 +156,7 @@ DoLock(S, r, t) ==
               ELSE LET S1 == [S EXCEPT !.H[me] = [h EXCEPT !.depth = @ + 1, !.cnt = r.cnt, !.rc = r.rc, !.rid = r.id,
                                                             !.dl = IF r.unl THEN MaxNow + 100 ELSE t + r.ex + 1, !.start = t,
                                                             !.next = IF r.unl THEN MaxNow + 100 ELSE t + r.ex + 1]]
-                   IN IF A13Fixed THEN WakePass(S1, t, <<Reply(r.id, SUCCED, S1, lidEff)>>)
+                   IN IF A13Fixed THEN WK(S1, t, <<Reply(r.id, SUCCED, S1, lidEff)>>)
                       ELSE [S |-> S1, out |-> <<Reply(r.id, SUCCED, S1, lidEff)>>]
          ELSE [S |-> S, out |-> <<Reply(r.id, LOCKED_ERROR, S, lidEff)>>]
     ELSE
@@ -168,7 +169,7 @@ DoLock(S, r, t) ==
     IF (~waited \/ jumpOK) /\ CanLock(S, r.cnt)
     THEN LET S1 == IF r.ex > 0 THEN [S EXCEPT !.H = Append(@, NewHolder(rr, t))] ELSE S
              rep == [Reply(r.id, SUCCED, S1, lidEff) EXCEPT !.granted = (r.ex > 0)]
-         IN IF S.waited THEN WakePass(S1, t, <<rep>>) ELSE [S |-> S1, out |-> <<rep>>]
+         IN IF S.waited THEN WK(S1, t, <<rep>>) ELSE [S |-> S1, out |-> <<rep>>]
     ELSE IF r.to > 0
     THEN [S |-> Enqueue(S, [id |-> r.id, lid |-> lidEff, cnt |-> r.cnt, rc |-> r.rc, pflag |-> r.pflag, prio |-> r.prio, ex |-> r.ex, unl |-> r.unl,
                              tot |-> t + r.to + 1, dead |-> FALSE]), out |-> <<>>]
@@ -177,7 +178,7 @@ DoLock(S, r, t) ==
 -----------------------------------------------------------------------------
 \* LockDB.UnLock
 
-CancelWait(S, r, t) ==
+CancelWaitG(WK(_, _, _), S, r, t) ==
     LET M == {i \in LiveIdx(S.W) : S.W[i].lid = r.lid} IN
     IF M = {}
     THEN [S |-> S, out |-> <<Reply(r.id, UNLOCK_ERROR, S, r.lid)>>]
@@ -185,17 +186,17 @@ CancelWait(S, r, t) ==
              S1 == [S EXCEPT !.W[i].dead = TRUE]
              S2 == IF LiveIdx(S1.W) = {} THEN [S1 EXCEPT !.W = <<>>, !.waited = FALSE] ELSE [S1 EXCEPT !.W = Purge(@)]
              o  == << [Reply(r.id, LOCKED_ERROR, S2, r.lid) EXCEPT !.lrc = 0], [Reply(S.W[i].id, UNLOCK_ERROR, S2, r.lid) EXCEPT !.lrc = 0] >>
-         IN IF A1Fixed THEN WakePass(S2, t, o) ELSE [S |-> S2, out |-> o]
+         IN IF A1Fixed THEN WK(S2, t, o) ELSE [S |-> S2, out |-> o]
 
-DoUnlock(S, r, t) ==
+DoUnlockG(WK(_, _, _), S, r, t) ==
     LET locked == Locked(S) IN
     IF locked = 0
-    THEN IF r.cancel /\ (S.W # <<>> \/ S.waited) THEN CancelWait(S, r, t)
+    THEN IF r.cancel /\ (S.W # <<>> \/ S.waited) THEN CancelWaitG(WK, S, r, t)
          ELSE [S |-> S, out |-> <<Reply(r.id, UNLOCK_ERROR, S, r.lid)>>]
     ELSE
     LET own == IdxOfLid(S.H, r.lid) IN
     IF own = 0 /\ ~r.first
-    THEN IF r.cancel THEN CancelWait(S, r, t)
+    THEN IF r.cancel THEN CancelWaitG(WK, S, r, t)
          ELSE [S |-> S, out |-> <<Reply(r.id, UNOWN_ERROR, S, r.lid)>>]
     ELSE
     LET i == IF own # 0 THEN own ELSE 1
@@ -206,23 +207,30 @@ DoUnlock(S, r, t) ==
         one == h.depth > 1 /\ rcEff > 0 /\ ~pfEff
         S1 == IF one THEN [S EXCEPT !.H[i].depth = @ - 1] ELSE [S EXCEPT !.H = RemoveIdx(@, i)]
         rep == Reply(r.id, SUCCED, S1, h.lid)
-    IN WakePass(S1, t, <<rep>>)
+    IN WK(S1, t, <<rep>>)
 
 -----------------------------------------------------------------------------
 \* timers (doTimeOut / doExpried), each firing is one critical section + its wake pass
 
-FireTimeoutOp(S, i, t) ==
+FireTimeoutG(WK(_, _, _), S, i, t) ==
     LET w  == S.W[i]
         S1 == [S EXCEPT !.W[i].dead = TRUE]
         S2 == IF LiveIdx(S1.W) = {} THEN [S1 EXCEPT !.W = <<>>, !.waited = FALSE] ELSE [S1 EXCEPT !.W = Purge(@)]
         o  == << [Reply(w.id, TIMEOUT, S2, w.lid) EXCEPT !.lrc = 0] >>
-    IN IF A1Fixed THEN WakePass(S2, t, o) ELSE [S |-> S2, out |-> o]
+    IN IF A1Fixed THEN WK(S2, t, o) ELSE [S |-> S2, out |-> o]
 
-FireExpiryOp(S, i, t) ==
+FireExpiryG(WK(_, _, _), S, i, t) ==
     LET h  == S.H[i]
         S1 == [S EXCEPT !.H = RemoveIdx(@, i)]
         o  == << [Reply(h.rid, EXPRIED, S1, h.lid) EXCEPT !.lrc = 0] >>
-    IN WakePass(S1, t, o)
+    IN WK(S1, t, o)
+
+-----------------------------------------------------------------------------
+\* sequential atomicity: the wake pass runs inside the action
+DoLock(S, r, t) == DoLockG(WakePass, S, r, t)
+DoUnlock(S, r, t) == DoUnlockG(WakePass, S, r, t)
+FireTimeoutOp(S, i, t) == FireTimeoutG(WakePass, S, i, t)
+FireExpiryOp(S, i, t) == FireExpiryG(WakePass, S, i, t)
 
 -----------------------------------------------------------------------------
 \* the transition system
